@@ -870,14 +870,15 @@ class CppMachine:
             if len(s['vars']) == 1 and (s['vars'][0].get('t') or {}).get('k') == 'bool' and s['vars'][0].get('init') is not None:
                 # a boolean local: one state per outcome of its initialiser
                 v = s['vars'][0]
+                snap = st.fork()
                 try:
                     self.decl(st, v)
                     return [st]
                 except Unsupported as ex:
-                    if 'undecided comparison' not in str(ex):
+                    if 'undecided comparison' not in str(ex) and 'several outcomes' not in str(ex):
                         raise
                 outs = []
-                for (r, s2) in self.cond(st, v['init']):
+                for (r, s2) in self.cond(snap, v['init']):
                     s2.fr.vars[v['id']] = ZPoly.const(1 if r else 0)
                     outs.append(s2)
                 return outs
@@ -1102,6 +1103,12 @@ class CppMachine:
         if k == 'assign':
             l = strip(e['lhs'])
             op = e.get('op')
+            if l.get('k') == 'ref' and l.get('rk') in ('local', 'param') and (l.get('t') or {}).get('k') == 'ptr' and op == '=' and \
+                    (isinstance(st.fr.vars.get(l['id']), tuple) or l['id'] not in st.fr.vars):
+                # a pointer local is re-aimed
+                o = self.pointer(st, e['rhs'])
+                st.fr.vars[l['id']] = ('obj', o[0], o[1])
+                return [st]
             if l.get('k') == 'ref' and l.get('rk') in ('local', 'param') and not isinstance(st.fr.vars.get(l['id']), tuple):
                 if op == '=' and (l.get('t') or {}).get('k') == 'bool' and any(x.get('k') == 'call' for x in walk(e['rhs'])):
                     # a boolean computed from a call that the machine summarises with several outcomes (compare): one state each
@@ -1151,6 +1158,8 @@ class CppMachine:
                 r = self.eval(st, e['rhs'])
                 if op == '<<=':
                     v = self.split(cur, 8 * size - r.const_value())[0] * (1 << r.const_value())
+                elif op == '>>=' and r.is_const() and 0 <= r.const_value() < 8 * size and self.rng(cur)[0] >= 0:
+                    v = self.split(cur, r.const_value())[1] if r.const_value() else cur
                 elif op == '+=':
                     v = self.wrap(cur + r, 8 * size, e)
                 elif op == '-=':
